@@ -124,6 +124,32 @@ pub fn compare(s: &mut Src) {
     done(fa); done(fb); done(fa2);
 }
 
+/// both filters shared: ordering must still be that of the whole text (a share name that is a
+/// prefix of the other followed by a character below '/' orders differently part-wise)
+pub fn compare_shared(s: &mut Src) {
+    let a: [u8; 4] = s.bytes();
+    let b: [u8; 4] = s.bytes();
+    vassume!(ascii(&a) && ascii(&b));
+    let mut ta = [0u8; 11];
+    let mut tb = [0u8; 11];
+    let pre = b"$share/";
+    let mut i = 0;
+    while i < 7 { ta[i] = pre[i]; tb[i] = pre[i]; i += 1; }
+    let mut j = 0;
+    while j < 4 { ta[7 + j] = a[j]; tb[7 + j] = b[j]; j += 1; }
+    let fa = mp::TopicFilter::try_from(unsafe { String::from_utf8_unchecked(ta.to_vec()) });
+    let fb = mp::TopicFilter::try_from(unsafe { String::from_utf8_unchecked(tb.to_vec()) });
+    if let (Ok(x), Ok(y)) = (&fa, &fb) {
+        let sx = unsafe { std::str::from_utf8_unchecked(&ta) };
+        let sy = unsafe { std::str::from_utf8_unchecked(&tb) };
+        vassert!((x == y) == (sx == sy), "C17|filter.eq_shared|equality of shared filters differs from equality of their texts");
+        vassert!(x.cmp(y) == sx.cmp(sy), "C17|filter.cmp_shared|ordering of shared filters differs from ordering of their texts");
+        vassert!(x.partial_cmp(y) == Some(sx.cmp(sy)), "C17|filter.partial_cmp_shared|partial_cmp of shared filters differs from ordering of the texts");
+        vcover!(x.is_shared() && y.is_shared() && sx != sy, "two different shared filters");
+    }
+    done(fa); done(fb);
+}
+
 scenarios! {
     #[kani::unwind(14)] c17_acc_plain3 [3] => acc_plain3;
     #[kani::unwind(14)] c17_acc_share3 [3] => acc_share3;
@@ -132,4 +158,5 @@ scenarios! {
     #[kani::unwind(14)] c17_acc_near3 [3] => acc_near3;
     #[kani::unwind(14)] c17_acc_near_noslash4 [4] => acc_near_noslash4;
     #[kani::unwind(14)] c17_compare [6] => compare;
+    #[kani::unwind(15)] c17_compare_shared [8] => compare_shared;
 }
